@@ -31,12 +31,16 @@ def snapshot(conn, extra=()):
         (int(conn.bitfield_pkt.current_seqnum), conn.bitfield_pkt.bits),
         (int(conn.bitfield_msg.current_seqnum), conn.bitfield_msg.bits),
         len(conn.outgoing_messages),
+        # the transmit side: what a rejected datagram must not touch either (an early or extra emission is an effect)
+        (getattr(conn, "last_send_time", None), getattr(conn, "last_send_keep_alive_time", None), int(conn.seq_sending),
+         int(conn.seq_message), int(conn.seq_fragment), len(conn.pending_retry_msg),
+         getattr(conn, "send_interval", None), getattr(conn, "send_keep_alive_interval", None), getattr(conn, "outgoing_timeout", None)),
     ) + tuple(extra)
 
 
 SNAP_FIELDS = ["incoming_messages", "reassembly_contexts", "pending_acks", "pending_callbacks", "stats.acked",
                "stats.timeouts", "stats.received", "session_key", "token", "status", "last_recv_time",
-               "bitfield_pkt", "bitfield_msg", "outgoing_queue_len", "delivered_count", "callback_count"]
+               "bitfield_pkt", "bitfield_msg", "outgoing_queue_len", "transmit_schedule", "delivered_count", "callback_count"]
 
 
 def snap_diff(a, b):
